@@ -134,6 +134,7 @@ WVEC_DEF(WVecD, WVItD, ItemD, g_ID, g_anonD)
   __CPROVER_assigns(self->itemList, self->itemListMutex.depth, WGHOSTS) \
   __CPROVER_ensures(SRC_OK(self)) \
   __CPROVER_ensures((handle.p == g_H && g_H != NULL && g_b0 && g_b1) ==> (__CPROVER_return_value && !g_att && !RECC(self))) \
+  __CPROVER_ensures((handle.p == g_H && g_H != NULL && g_b0 && !g_b1) ==> (!__CPROVER_return_value && !g_att))      /* recorded but already detached elsewhere: reports false */ \
   __CPROVER_ensures(!(handle.p == g_H && g_H != NULL) ==> (g_att == g_b1 && RECC(self) == g_b0))        /* other listeners and records untouched */ \
   __CPROVER_ensures(((handle.p == g_H && g_H != NULL) && !g_b0) ==> (g_att == g_b1 && g_removes_H == __CPROVER_old(g_removes_H) && !__CPROVER_return_value))  /* not added through this remover: never touched */
 /* move construction: responsibility passes to the new remover; nothing is detached */
@@ -206,6 +207,7 @@ WVEC_DEF(WVecD, WVItD, ItemD, g_ID, g_anonD)
   __CPROVER_assigns(self->itemList, self->itemListMutex.depth, WGHOSTS) \
   __CPROVER_ensures(SRD_OK(self)) \
   __CPROVER_ensures((handle.p == g_H && g_H != NULL && g_b0 && g_b1 && *event == g_att_ev) ==> (__CPROVER_return_value && !g_att && !RECD(self))) \
+  __CPROVER_ensures((handle.p == g_H && g_H != NULL && g_b0 && !g_b1) ==> (!__CPROVER_return_value && !g_att))      /* recorded but already detached elsewhere: reports false */ \
   __CPROVER_ensures(!(handle.p == g_H && g_H != NULL) ==> (g_att == g_b1 && RECD(self) == g_b0)) \
   __CPROVER_ensures(((handle.p == g_H && g_H != NULL) && !g_b0) ==> (g_att == g_b1 && g_removes_H == __CPROVER_old(g_removes_H) && !__CPROVER_return_value))
 #define CONTRACT_SRD_ctor_move \
